@@ -78,7 +78,7 @@ def build(ctx):
         kb = probe(ctx, cap, ru)
         d = {'KBUF': str(kb), 'KPOW2': '1' if (kb & (kb - 1)) == 0 else '0'}
         inst = 'Capacity=%d,RoundUp=%s,kBufferSize=%d' % (cap, ru, kb)
-        common = dict(defines=d, inst=inst, timeout=600, unwind=kb + 4,
+        common = dict(defines=d, inst=inst, timeout=600, unwind=kb + 4, replay=dict(prog='replay/c35_replay.cpp', args=lambda ce, u: ['5'], no_rlimit=True),
                       assumptions=['slot loops of the interference step, harness and destructor are bounded by the constant kBufferSize: unwound completely'])
         units.append(Unit('increment', 'cbmc', S, 'increment', expect=[r'postcondition'], defines=d, inst=inst))
         for fn in ('Ring_try_push_move', 'Ring_try_push_copy', 'Ring_try_emplace', 'Ring_try_pop_ref', 'Ring_try_pop_into', 'Ring_try_push_batch', 'Ring_try_pop_batch'):
